@@ -24,6 +24,8 @@ import (
 	hcm "github.com/envoyproxy/go-control-plane/envoy/extensions/filters/network/http_connection_manager/v3"
 
 	meshconfig "istio.io/api/mesh/v1alpha1"
+	"istio.io/istio/pilot/pkg/features"
+	"istio.io/istio/pkg/config/host"
 	authpb "istio.io/api/security/v1beta1"
 	typepb "istio.io/api/type/v1beta1"
 	"istio.io/istio/pilot/pkg/model"
@@ -64,6 +66,9 @@ type sut struct {
 	wlLabels map[string]string
 	policies []model.AuthorizationPolicy // in creation order
 	forTCP   bool
+	// CUSTOM action: extension providers defined in the mesh config, multi-provider feature flag
+	providers []string
+	multi     bool
 	// last build
 	httpFilters []*hcm.HttpFilter
 	tcpFilters  []*listener.Filter
@@ -177,9 +182,36 @@ func (s *sut) build(forTCP, useAuth bool) {
 	}
 	sel := model.PolicyMatcherFor(s.wlNS, s.wlLabels, false).WithRootNamespace(s.rootNS)
 	res := ap.ListAuthorizationPolicies(sel)
-	push := &model.PushContext{AuthzPolicies: ap, Mesh: &meshconfig.MeshConfig{}}
-	b := builder.New(trustdomain.NewBundle(s.bundle[0], s.bundle[1:]), push, res, builder.Option{UseFilterState: !useAuth})
+	mesh := &meshconfig.MeshConfig{}
+	for _, name := range s.providers {
+		mesh.ExtensionProviders = append(mesh.ExtensionProviders, &meshconfig.MeshConfig_ExtensionProvider{
+			Name: name,
+			Provider: &meshconfig.MeshConfig_ExtensionProvider_EnvoyExtAuthzGrpc{
+				EnvoyExtAuthzGrpc: &meshconfig.MeshConfig_ExtensionProvider_EnvoyExternalAuthorizationGrpcProvider{
+					Service: "foo/my-custom-ext-authz.foo.svc.cluster.local", Port: 9000,
+				},
+			},
+		})
+	}
+	push := &model.PushContext{AuthzPolicies: ap, Mesh: mesh}
+	push.ServiceIndex.HostnameAndNamespace = map[host.Name]map[string]*model.Service{
+		"my-custom-ext-authz.foo.svc.cluster.local": {"foo": &model.Service{Hostname: "my-custom-ext-authz.foo.svc.cluster.local"}},
+	}
 	s.httpFilters, s.tcpFilters, s.built = nil, nil, nil
+	// the CUSTOM builder first (as the authz plugin orders the filters), then ALLOW/DENY/AUDIT
+	features.EnableMultipleCustomAuthzProviders = s.multi
+	if cb := builder.New(trustdomain.NewBundle(s.bundle[0], s.bundle[1:]), push, res, builder.Option{IsCustomBuilder: true, UseFilterState: !useAuth}); cb != nil {
+		if forTCP {
+			for _, f := range cb.BuildTCP() {
+				s.built = append(s.built, fromTCP(f))
+			}
+		} else {
+			for _, f := range cb.BuildHTTP() {
+				s.built = append(s.built, fromHTTP(f))
+			}
+		}
+	}
+	b := builder.New(trustdomain.NewBundle(s.bundle[0], s.bundle[1:]), push, res, builder.Option{UseFilterState: !useAuth})
 	if b == nil {
 		return
 	}
@@ -217,6 +249,9 @@ func (s *sut) apply(f []string) (out string) {
 			k, v := kv(e)
 			s.wlLabels[k] = v
 		}
+		return "ok"
+	case "custom":
+		s.providers, s.multi = wire.DecList(f[1]), f[2] == "1"
 		return "ok"
 	case "pol":
 		p := model.AuthorizationPolicy{Namespace: wire.Dec(f[2]), Name: wire.Dec(f[3]), Annotations: map[string]string{},
